@@ -16,6 +16,8 @@ TREE = [
     "README.md", "main.py", "setup.py", "Makefile",
     "src/a.py", "src/test_a.py", "src/Mod.PY", "src/notes.txt", "src/api/x.ts", "src/api/users_api.py", "src/api/v1/h_api.py", "src/api/v1/test_h.py",
     "srcx/b.py", "src_old/c.py", "tests/test_t.py", "tests/helper.py", "tests2/t.py", "lib/util.ts", "lib/README.md", "lib/deep/er/m.tsx", "docs/guide.md",
+    # files (not directories) whose NAME is that of an always-skipped directory: ordinary files of the project, judged like any other
+    "src/build", "lib/venv", "docs/pkg.egg-info", "dist",
 ]
 DIRS = ["src", "src/", "src/api", "src/api/v1", "tests", "lib", "/", "docs", "lib/deep"]
 PATTERNS = [r".*\.py$", r"^src/.*", r"test_.*\.py$", r".*\.(ts|tsx)$", r"(?i)readme", r"^[a-z_]+\.py$", r".*_api\.py$", r".*", r".*\.md$", r"^lib/", r"v1/"]
